@@ -167,14 +167,26 @@ pub fn dump_case(case: &Value) -> Value {
         program_structure::constants::verif::set_prime_override(prime.clone());
         let b = budget.map(|(v, d)| (if v < 0 { None } else { Some(v as usize) }, if d < 0 { None } else { Some(d as usize) })).unwrap_or((None, None));
         program_structure::cfg::verif::set_budgets(b.0, b.1);
-        let Some(mut def) = parser::parse_definition(&src) else {
+        let Some(def) = parser::parse_definition(&src) else {
             return json!({"parse": false});
         };
-        // parse_definition leaves file ids unset; labels are then location-only
-        let _ = &mut def;
         let mut reports = ReportCollection::new();
         let mut doc = json!({"parse": true});
-        let cfg = match def.into_cfg(&curve, &mut reports) {
+        // parse_definition leaves file ids unset (reports would carry no labels): build the library's data
+        // types, which fill in the file id, exactly as parse_files does
+        let mut elem_id = 0;
+        let lifted = match def {
+            program_structure::ast::Definition::Function { name, args, arg_location, body, .. } => {
+                let data = program_structure::function_data::FunctionData::new(name, 0, body, args.len(), args, arg_location, &mut elem_id);
+                (&data).into_cfg(&curve, &mut reports)
+            }
+            program_structure::ast::Definition::Template { name, args, arg_location, body, parallel, is_custom_gate, .. } => {
+                let data = program_structure::template_data::TemplateData::new(
+                    name, 0, body, args.len(), args, arg_location, &mut elem_id, parallel, is_custom_gate);
+                (&data).into_cfg(&curve, &mut reports)
+            }
+        };
+        let cfg = match lifted {
             Ok(cfg) => cfg,
             Err(e) => {
                 let rep: program_structure::report::Report = e.into();
